@@ -23,6 +23,18 @@ TEXT = {
             'Online clock monitor on every global_time write over S-family (incl. all-quiet, steps-only, self-deleting), unrestricted adaptive answers up to the deviation bound and precision grids; lasso detection decides non-termination.',
             'Clock writes observed through a subclass property; termination decided by lasso + caps under fixed answer policies.',
             'deviation-bounded stateless exploration of poll answers + exhaustive schedule grids with an online clock/lasso monitor'),
+    'C04': ('model_checking', '3/C04',
+            'Every permutation of the listing order of processes, steps, ports and initial-state keys of commuting composites is executed on the real Engine; invariants (no apply between same-instant invocations, identical whole-hierarchy snapshots at one instant, nothing due unapplied, step phase complete) are checked on every execution and the emitted trajectory is compared across all permutations of a world (differential).',
+            'Commutativity premise: token variables compared as multisets; worlds with structural operations aimed at a process due in the same batch are excluded.',
+            'exhaustive permutation enumeration of real executions with snapshot invariants and a cross-permutation differential oracle'),
+    'C05': ('model_checking', '3/C05',
+            'Every labelled DAG on <=4 (thorough 5) flow steps, with 0-2 legacy derivers, four nestings and two process sets, plus steps deleted/generated mid-phase, is run on the real Engine; a trace monitor decides phase placement, once-per-phase, dependency order with data-flow evidence, derivers-first and equal snapshots per generation.',
+            'Flows are well-formed DAGs; derivers are declared homogeneously so declaration order is unambiguous.',
+            'exhaustive program enumeration (all DAGs up to n) executed on the implementation with a trace monitor'),
+    'C12': ('model_checking', '3/C12',
+            'Every emit-flag subset x store_schema override x emit_step x schedule (and a structural add/delete history) is executed with a recording user Emitter; each emit() call is compared with an independently filtered snapshot, row times with the ideal-timeline batch times, larger emit_step runs with the emit_step-1 run of the same world.',
+            'Snapshot = Engine.state.get_value() read inside emit(); flagged set computed from the world spec; liveness clause for emit_step > 1 as stated in DESIGN.',
+            'bounded exhaustive execution enumeration with per-emit snapshot oracle, ideal-timeline conformance and emit_step differential'),
 }
 
 LEVEL_TEXT = {}
